@@ -288,6 +288,16 @@ def run(chk, model_ok=True):
                 fail("# async get_many 400", str(r)[:60], f"async get_many of 400 names was not refused with SnmpEncodeError: {r!r:.60}, {len(sent)} names sent")
         elif sent != want:
             fail("# async get_many " + str(len(lst)), str(r)[:60], f"async get_many put {len(sent)} names on the wire instead of the {len(want)} requested")
+    # any iterable is a legitimate argument of get_many: every name it yields must be sized and sent
+    for mk, what in ((lambda: iter([a, b, a]), "iterator"), (lambda: (x for x in [b, a]), "generator"), (lambda: (a, b), "tuple"),
+                     (lambda: map(str, [a, b]), "map object"), (lambda: {a: 1, b: 2}.keys(), "dict view")):
+        del seen[:]
+        r = e2e.ncall(lambda: sess.get_many(mk()))
+        n_cli += 1
+        sent = [tuple(v[0]) for q in seen for v in q.get("varbinds", [])]
+        want = [tuple(int(x) for x in o.split(".")) for o in list(mk())]
+        if r[0] != "ok" or sent != want:
+            fail("# sync get_many(" + what + ")", str(r)[:60], f"sync get_many given a {what} of {len(want)} names put {len(sent)} on the wire ({r!r:.40})")
     chk.coverage["python_client_calls"] = n_cli
     chk.coverage["e2e_sends"] = n_e2e
     st.diff("C17 buffer / encoders")
